@@ -284,6 +284,46 @@ pub fn threads(n: usize, rng: &mut Rng, out: &mut Out) {
         for p in &paths {
             out.search(0, p);
         }
+        // searches between updates: a wide literal fan-out is searched (sequentially and from eight threads), one of its
+        // templates that is not the last sibling is deleted, and everything is searched again; a second router that is
+        // built with the final set and was never searched before must answer the same (FUN: results are a function of
+        // the live set, whatever was searched on the way)
+        out.reset();
+        out.new_router(0, KEYS);
+        let words = ["alpha", "bravo", "charlie", "delta", "echo", "foxtrot", "golf", "hotel", "india"];
+        let nw = 6 + rng.below(4);
+        let mut wide: Vec<String> = words[..nw].iter().map(|w| format!("/{w}")).collect();
+        wide.push(format!("/{}/{{id}}", words[nw - 1]));
+        wide.push("/{other}".to_owned());
+        for (d, t) in wide.iter().enumerate() {
+            out.insert(0, t, d as u32 + 1);
+        }
+        let mut battery: Vec<String> = words[..nw].iter().map(|w| format!("/{w}")).collect();
+        battery.push(format!("/{}/12", words[nw - 1]));
+        battery.push("/zulu".to_owned());
+        battery.push("/".to_owned());
+        for p in &battery {
+            out.search(0, p);
+        }
+        let hs: Vec<String> = battery.iter().map(|p| hex(p.as_bytes())).collect();
+        out.op(format!("# psearch 0 8 {}", hs.join(" ")));
+        let victim = rng.below(nw - 1);
+        out.delete(0, &wide[victim]);
+        for p in &battery {
+            out.search(0, p);
+        }
+        out.op(format!("# psearch 0 8 {}", hs.join(" ")));
+        out.display(0);
+        out.new_router(1, KEYS);
+        for (d, t) in wide.iter().enumerate() {
+            if d != victim {
+                out.insert(1, t, d as u32 + 1);
+            }
+        }
+        for p in &battery {
+            out.search(1, p);
+        }
+        out.display(1);
     }
 }
 
